@@ -40,7 +40,9 @@ Definition cmp_out (h mn : Q) (model : val (QOps h mn)) (o : outcome) (tol : Q) 
       if negb (deqb (ud _ u) dm) then "unit-dimension"
       else if negb (rel_close (us _ u) sc (1 # 1000000000000)) then "unit-multiplier"
       else if negb (dtype_eqb d dt) then "dtype:model=" ++ dtype_name d ++ ",impl=" ++ dtype_name dt
-      else if rel_close (v * sc) (x * us _ u) tol then "" else "value"
+      else if rel_close (v * sc) (x * us _ u) tol then ""
+      else if rel_close (v * sc) (x * us _ u) (2 # 1000000) then "value-single-precision-level"
+      else "value"
   | VVar _ (ENaN _) u d, OutNaN sc dm dt =>
       if negb (deqb (ud _ u) dm) then "unit-dimension"
       else if negb (rel_close (us _ u) sc (1 # 1000000000000)) then "unit-multiplier"
